@@ -210,6 +210,21 @@ func (t *tr) callStmt(c *ast.CallExpr) bool {
 		t.store(dst, c, fmt.Sprintf("GoSem.xorInto %s %s %s %s %s", cur, lo, hi, t.expr(c.Args[1]), t.expr(c.Args[2])))
 		return true
 	}
+	if o, ok := t.f.mutops[t.src(c.Fun)]; ok {
+		// X.m(args) on an abstract object: X := name X args
+		sel := c.Fun.(*ast.SelectorExpr)
+		obj, name := t.placeObj(sel.X)
+		if obj == nil {
+			t.fail(c, "-mutate receiver %s is not a variable", t.src(sel.X))
+			return true
+		}
+		args := []string{t.expr(sel.X)}
+		for _, a := range c.Args {
+			args = append(args, t.expr(a))
+		}
+		t.setObj(obj, name, t.typeOf(sel.X), leanName(o.name)+" "+strings.Join(args, " "), c)
+		return true
+	}
 	if o, ok := t.f.blockops[t.src(c.Fun)]; ok && len(c.Args) == 2 {
 		// cipher.Block Encrypt / Decrypt (dst, src): one 16-byte block of src into the first 16 bytes of dst
 		dst, cur, lo, hi, ok := t.window(c.Args[0])
@@ -220,7 +235,13 @@ func (t *tr) callStmt(c *ast.CallExpr) bool {
 			t.fail(c, "block operand %s overlaps the destination inexactly", t.src(c.Args[1]))
 			return true
 		}
-		t.store(dst, c, fmt.Sprintf("GoSem.blockInto 16 %s %s %s %s %s", leanName(o.name), cur, lo, hi, t.expr(c.Args[1])))
+		bf := leanName(o.name)
+		if sel, ok := c.Fun.(*ast.SelectorExpr); ok {
+			if kr, _ := t.kindOf(sel.X); kr == kBytes {
+				bf = "(" + bf + " " + t.expr(sel.X) + ")" // the cipher object is represented by its key
+			}
+		}
+		t.store(dst, c, fmt.Sprintf("GoSem.blockInto 16 %s %s %s %s %s", bf, cur, lo, hi, t.expr(c.Args[1])))
 		return true
 	}
 	if o, ok := t.f.applyops[t.src(c.Fun)]; ok && len(c.Args) == 2 {
@@ -292,18 +313,17 @@ func (t *tr) callStmt(c *ast.CallExpr) bool {
 	if sg := t.calleeSig(c); sg != nil && sg.proc {
 		// P(…, dst, …) of an emitted procedure; a dropped error result leaves the poison value in dst on failure
 		name := calleeName(c)
-		dst, cur, lo, hi, call, whole, ok := t.procCall(name, sg, c)
+		outs, call, ok := t.procCall(name, sg, c)
 		if !ok {
 			return true
 		}
 		if sg.optional {
-			call = "(" + call + ".getD [])"
+			call = "(" + call + ".getD " + poisonTuple(len(outs)) + ")"
 		}
-		if whole {
-			t.store(dst, c, call)
-		} else {
-			t.store(dst, c, fmt.Sprintf("GoSem.copyInto %s %s %s %s", cur, lo, hi, call))
+		if len(outs) > 1 {
+			call = t.define("res_"+name, bytesTuple(len(outs)), call)
 		}
+		t.storeProcOuts(outs, call, c)
 		return true
 	}
 	return false
@@ -495,6 +515,51 @@ func (t *tr) errGuard(s ast.Stmt, errObj types.Object) bool {
 	return t.isNonNilErr(last)
 }
 
+// inlineClosure: a call of a local procedure `f := func(a T, dst []byte) {…}`: scalar parameters are bound to the argument
+// values, a slice parameter the body writes into becomes a VIEW of the argument's window, then the body is translated in place.
+func (t *tr) inlineClosure(fl *ast.FuncLit, c *ast.CallExpr, rest []ast.Stmt, depth int, k func() string) string {
+	f := t.f
+	var params []*ast.Ident
+	for _, fld := range fl.Type.Params.List {
+		params = append(params, fld.Names...)
+	}
+	if len(params) != len(c.Args) {
+		return t.fail(c, "local function call arity")
+	}
+	stored := t.storedObjs(fl.Body.List)
+	for i, p := range params {
+		pobj := t.u.info.Defs[p]
+		if pobj == nil {
+			continue
+		}
+		kd, _ := classify(pobj.Type())
+		if kd == kBytes && stored[pobj] {
+			root, _, lo, hi, ok := t.window(c.Args[i])
+			if !ok {
+				return "(UNSUPPORTED)"
+			}
+			vars, have := f.viewVars[pobj]
+			if !have {
+				vars = [2]*types.Var{
+					types.NewVar(p.Pos(), t.u.pkg, p.Name+"_lo", types.Typ[types.Int]),
+					types.NewVar(p.Pos()+1, t.u.pkg, p.Name+"_hi", types.Typ[types.Int]),
+				}
+				f.viewVars[pobj] = vars
+			}
+			f.viewRoot[pobj] = root
+			t.setObj(vars[0], vars[0].Name(), vars[0].Type(), lo, c)
+			t.setObj(vars[1], vars[1].Name(), vars[1].Type(), hi, c)
+			f.views[pobj] = &view{root: root, lo: vars[0], hi: vars[1]}
+			continue
+		}
+		if !supported(kd) {
+			return t.fail(c, "local function parameter %s of type %s", p.Name, pobj.Type())
+		}
+		t.setObj(pobj, p.Name, pobj.Type(), t.exprAs(c.Args[i], pobj.Type()), c)
+	}
+	return t.block(append(append([]ast.Stmt{}, fl.Body.List...), rest...), depth, k)
+}
+
 // panicGuard recognises `if err != nil { panic(…) }`
 func (t *tr) panicGuard(s ast.Stmt, errObj types.Object) bool {
 	is, ok := s.(*ast.IfStmt)
@@ -641,6 +706,18 @@ func (t *tr) block(stmts []ast.Stmt, depth int, k func() string) string {
 								return t.block(rest[1:], depth, k)
 							}
 						}
+						if c, isCall := x.Rhs[0].(*ast.CallExpr); isCall {
+							if idx, isCtor := t.f.ctors[t.src(c.Fun)]; isCtor {
+								// x, err := <constructor represented by one of its arguments>(…): assumed to succeed
+								eid, ok := x.Lhs[1].(*ast.Ident)
+								vid, ok2 := x.Lhs[0].(*ast.Ident)
+								if !ok || !ok2 || idx >= len(c.Args) || len(rest) == 0 || !t.errGuard(rest[0], t.objOf(eid)) {
+									return t.fail(s, "a -ctor call with an error result must be followed by `if err != nil { return …, err }`")
+								}
+								t.setVar(vid, tup.At(0).Type(), t.expr(c.Args[idx]))
+								return t.block(rest[1:], depth, k)
+							}
+						}
 						if c, isCall := x.Rhs[0].(*ast.CallExpr); isCall && t.f.abstract[t.src(c.Fun)] {
 							// x, err := <constructor of an abstract object>(…); if err != nil { return … }:
 							// the object carries no value and the constructor is assumed to succeed
@@ -658,6 +735,19 @@ func (t *tr) block(stmts []ast.Stmt, depth int, k func() string) string {
 				}
 			}
 			if len(x.Lhs) == 1 && len(x.Rhs) == 1 && x.Tok == token.DEFINE {
+				if id, ok := x.Lhs[0].(*ast.Ident); ok {
+					if fl, isFn := x.Rhs[0].(*ast.FuncLit); isFn {
+						// a local procedure: remembered, inlined at its calls
+						if fl.Type.Results != nil && len(fl.Type.Results.List) > 0 {
+							return t.fail(s, "local function with results")
+						}
+						if containsReturn(fl.Body.List) {
+							return t.fail(s, "local function with a return statement")
+						}
+						t.f.closures[t.objOf(id)] = fl
+						return t.block(rest, depth, k)
+					}
+				}
 				if id, ok := x.Lhs[0].(*ast.Ident); ok && t.structLit(id, x.Rhs[0]) {
 					return t.block(rest, depth, k)
 				}
@@ -679,6 +769,16 @@ func (t *tr) block(stmts []ast.Stmt, depth int, k func() string) string {
 			if len(x.Lhs) == 1 && len(x.Rhs) == 1 && x.Tok == token.ASSIGN {
 				if id, ok := x.Lhs[0].(*ast.Ident); ok && t.resliceView(id, x.Rhs[0], s) {
 					return t.block(rest, depth, k)
+				}
+			}
+			if len(x.Lhs) == 1 && len(x.Rhs) == 1 {
+				// n := subtle.XORBytes(dst, x, y): the store, then min(len x, len y)
+				if c, ok := x.Rhs[0].(*ast.CallExpr); ok && len(c.Args) == 3 {
+					if pkg, _, name := t.stdCallee(c.Fun); pkg == "crypto/subtle" && name == "XORBytes" {
+						cnt := fmt.Sprintf("(min (GoSem.len %s) (GoSem.len %s))", t.expr(c.Args[1]), t.expr(c.Args[2]))
+						t.callStmt(c)
+						return t.assignTo(x.Lhs[0], t.typeOf(c), cnt, s, rest, depth, k)
+					}
 				}
 			}
 			if len(x.Lhs) == 1 && len(x.Rhs) == 1 {
@@ -713,9 +813,8 @@ func (t *tr) block(stmts []ast.Stmt, depth int, k func() string) string {
 			}
 			if len(x.Lhs) == 1 {
 				if id, ok := x.Lhs[0].(*ast.Ident); ok && id.Name != "_" {
-					if kd, _ := classify(t.typeOf(id)); kd == kBytes && x.Tok == token.ASSIGN && len(t.f.alias[t.objOf(id)]) > 0 {
-						return t.fail(s, "re-assignment of %s, which shares memory with another translated variable", id.Name)
-					}
+					// (a re-assigned slice variable keeps its recorded aliases: an over-approximation, so that a later store
+					// into any of them is still refused)
 					r := t.assignTo(x.Lhs[0], t.typeOf(x.Rhs[0]), vals[0], s, nil, depth, func() string { return "" })
 					if strings.Contains(r, "UNSUPPORTED") {
 						return r
@@ -751,6 +850,13 @@ func (t *tr) block(stmts []ast.Stmt, depth int, k func() string) string {
 	case *ast.ExprStmt:
 		if isPanic(x) {
 			return t.fail(s, "panic")
+		}
+		if c, ok := x.X.(*ast.CallExpr); ok {
+			if id, isId := c.Fun.(*ast.Ident); isId {
+				if fl, isCl := t.f.closures[t.objOf(id)]; isCl {
+					return t.inlineClosure(fl, c, rest, depth, k)
+				}
+			}
 		}
 		if c, ok := x.X.(*ast.CallExpr); ok && t.callStmt(c) {
 			return t.block(rest, depth, k)
@@ -942,26 +1048,29 @@ func (t *tr) bindOption(x *ast.AssignStmt, tup *types.Tuple, rest []ast.Stmt, de
 		}
 		if c, isCall := x.Rhs[0].(*ast.CallExpr); isCall {
 			if sg := t.calleeSig(c); sg != nil && sg.proc && sg.optional {
-				// err := P(…, dst, …): on success the window dst holds the procedure's value
-				dst, cur, lo, hi, call, whole, ok := t.procCall(calleeName(c), sg, c)
+				// err := P(…, dst, …): on success the windows hold the procedure's value
+				outs, call, ok := t.procCall(calleeName(c), sg, c)
 				if !ok {
 					return "(UNSUPPORTED)"
 				}
-				opt := t.define("opt_"+dst.Name(), "Option Bytes", call)
+				ty := bytesTuple(len(outs))
+				if len(outs) > 1 {
+					ty = "(" + ty + ")"
+				}
+				opt := t.define("opt_"+outs[0].dst.Name(), "Option "+ty, call)
 				f := t.f
 				saved := f.binders
-				bn := leanName(dst.Name()) + "'"
+				bn := leanName(outs[0].dst.Name()) + "'"
 				for f.hasBinder(bn) {
 					bn += "'"
 				}
-				f.binders = append(append([]binder{}, f.binders...), binder{bn, "Bytes"})
-				if whole {
-					t.store(dst, x, bn)
-				} else {
-					t.store(dst, x, fmt.Sprintf("GoSem.copyInto %s %s %s %s", cur, lo, hi, bn))
-				}
+				f.binders = append(append([]binder{}, f.binders...), binder{bn, bytesTuple(len(outs))})
+				t.storeProcOuts(outs, bn, x)
 				body := t.block(rest[1:], depth+1, k)
 				f.binders = saved
+				if len(t.f.loops) > 0 {
+					return fmt.Sprintf("%smatch %s with\n%s| none => %s\n%s| some %s =>\n%s", ind(depth), opt, ind(depth), t.wrapRet("none"), ind(depth), bn, body)
+				}
 				return fmt.Sprintf("%s(%s).bind (fun %s =>\n%s)", ind(depth), opt, bn, body)
 			}
 		}
@@ -1242,8 +1351,10 @@ func (t *tr) assignedObjs(stmts []ast.Stmt) map[types.Object]bool {
 					mark(x.X)
 				}
 			case *ast.CallExpr:
-				if i := t.destArg(x); i >= 0 && i < len(x.Args) {
-					markStore(x.Args[i])
+				for _, i := range t.destArgs(x) {
+					if i >= 0 && i < len(x.Args) {
+						markStore(x.Args[i])
+					}
 				}
 				callee := t.src(x.Fun)
 				for _, e := range t.f.externs {
